@@ -3,7 +3,8 @@
 E2, unmerged: after a fixed prefix that creates iteration 0 (in memory, or on disk), every sequence of operations over
 {solve(level a), solve(level b), save iteration, change folder (""/A/B), restore iteration (0 / last), read stored iteration,
 query a result for iteration 0, replace the mesh, Save + Load_Simu} up to depth 2 (quick) / 3 (thorough), for ten simulation
-scenarios.  The harness keeps its own list of deep-copied snapshots taken at every save through public getters; the
+scenarios.  Prefix "back" (time-scheme scenarios) ends with the return to the elliptic algorithm (letter "ell"); "read stored iteration" (get0)
+overwrites the arrays of the dict it was handed, the way the harness treats every array a getter hands out.  The harness keeps its own list of deep-copied snapshots taken at every save through public getters; the
 invariants are evaluated after EVERY operation."""
 from __future__ import annotations
 
@@ -25,12 +26,22 @@ PROPERTY = "C15"
 # "save_user": Save_Iter(info) with the documented optional dict, the SAME dict object updated and handed over at every call (load-loop idiom)
 # "reset0": Set_Iter(0) with NO query afterwards (the queries of "set0" recompute lazily held fields and can mask a state that was not restored)
 # "reslast": Result(name, iter=-1) = the results of the LAST stored iteration, wherever the simulation currently stands
+# "get0": Get_results(0), and the reader USES what it was handed (every array of the returned dict, nested ones included, is overwritten in place
+#         by the harness, as it does with every other array a getter hands out): a read must not reach the stored iteration, in memory or on disk
+# "ell" (prefix "back" only): Solver_Set_Elliptic_Algorithm() after a transient history, the mirror image of "dyn"
 OPS = ["solve_a", "solve_b", "save", "save_user", "reset0", "reslast", "folder0", "folderA", "folderB", "set0", "setlast", "get0", "res0", "replacemesh", "saveload"]
 PREFIXES = {"init": ["save", "solve_a", "save"],  # iteration 0 = the initial state, saved before any solve; iteration 1 solved
             "mem": ["solve_a", "save"], "disk": ["folderA", "solve_a", "save"], "two": ["solve_a", "save", "solve_b", "save"],
             "twomesh": ["solve_a", "save", "replacemesh", "solve_b", "save"],
             # a static iteration, then the time scheme is switched on and a dynamic iteration is stored (scenarios that define to_dynamic)
-            "mixed": ["solve_a", "save", "dyn", "solve_b", "save"]}
+            "mixed": ["solve_a", "save", "dyn", "solve_b", "save"],
+            # two dynamic iterations, then the steady-state algorithm is selected again (scenarios that run a time scheme from the start)
+            "back": ["solve_a", "save", "solve_b", "save", "ell"]}
+
+# results that are rates of the time scheme.  Once the elliptic algorithm is selected the library's convention for a restored iteration is
+# "the rates do not apply: zero" (Elastic, Thermal, Beam, HyperElastic): then a rate is accepted if it equals the saved one OR is zero everywhere,
+# never the rate of another iteration
+RATES = ("v", "a", "speed_norm", "accel_norm", "thermalDot")
 
 MESHES = {
     "Q": lambda: Z.template_2d("QUAD4", [3, 2]),
@@ -48,6 +59,18 @@ def _sides(key):
     zm = MESHES[key]()
     x = zm.coords[:, 0]
     return np.where(np.abs(x - x.min()) < 1e-9)[0], np.where(np.abs(x - x.max()) < 1e-9)[0]
+
+
+def _use(obj):
+    """what a reader may do with a stored iteration it was handed: overwrite, in place, every array of the dict (nested dicts / lists included)"""
+    if isinstance(obj, dict):
+        for x in list(obj.values()):
+            _use(x)
+    elif isinstance(obj, (list, tuple)):
+        for x in obj:
+            _use(x)
+    elif isinstance(obj, np.ndarray) and obj.dtype.kind in "fc" and obj.flags.writeable and obj.size:
+        obj[...] = -7.77
 
 
 def _take(x):
@@ -184,7 +207,8 @@ class ThermalParabolic(Scn):
 class BeamStatic(Scn):
     name = "beam_static"
     mesh0, mesh1 = "S1", "S2"
-    results = ["displacement_norm"]
+    # "Mz": an internal force, computed with the shape functions of the BEAM element groups (a plain SEGn group does not have them)
+    results = ["displacement_norm", "Mz"]
     skip_ops = ()
 
     def to_dynamic(self, simu):
@@ -221,7 +245,7 @@ class BeamStatic(Scn):
         simu.add_neumann(hi, [self.levels[level]], ["y"])
 
     def named(self, simu):
-        return {nm: np.atleast_1d(_take(simu.Result(nm))) for nm in self.results}
+        return {nm: np.atleast_1d(_take(simu.Result(nm, nodeValues=(nm in NODE_RESULTS)))) for nm in self.results}
 
 
 class BeamNewmark(BeamStatic):
@@ -435,6 +459,8 @@ SCENARIOS = {s.name: s for s in (ElasticStatic, ElasticNewmark, ThermalStatic, T
                                  PhaseFieldHistoryDamage, InElasticScn, HyperScn, WeakFormScn, WeakFormParabolic, WeakFormHyperbolic, WeakFormMixed, WeakFormDecorated)}
 
 
+NODE_RESULTS = ("damage", "thermal", "thermalDot", "u", "v", "a", "displacement_norm", "Wdef", "Psi_Crack")  # queried with nodeValues=True
+
 MESH_OPS = ["save", "translate", "rotate", "symmetry", "settag", "partition"]
 
 
@@ -520,23 +546,29 @@ def _run_meshio(case):
         shutil.rmtree(tmp, ignore_errors=True)
 
 
+def _skips(name):
+    """operations that are not part of a scenario: its own list, and "ell" (back to the steady-state algorithm) unless it runs a time scheme"""
+    cls = SCENARIOS[name]
+    return tuple(getattr(cls, "skip_ops", ())) + (() if cls.dynamic else ("ell",))
+
+
 def cases(tier, seed):
     out = _mesh_cases(tier)
     depth = 2 if tier == "quick" else 3
     for name in SCENARIOS:
         for pre in PREFIXES:
-            if any(o in getattr(SCENARIOS[name], "skip_ops", ()) for o in PREFIXES[pre]):
+            if any(o in _skips(name) for o in PREFIXES[pre]):
                 continue
             for d in range(1, depth + 1):
                 for seq in itertools.product(OPS, repeat=d):
-                    if any(o in getattr(SCENARIOS[name], "skip_ops", ()) for o in seq):
+                    if any(o in _skips(name) for o in seq):
                         continue
                     out.append({"scn": name, "prefix": pre, "ops": list(seq)})
     if tier == "quick":
         # folder / reload / restore interplay one step deeper on the two-mesh history (reduced alphabet)
         sub = ["saveload", "folderA", "folderB", "set0", "setlast"]
         for name in SCENARIOS:
-            if any(o in getattr(SCENARIOS[name], "skip_ops", ()) for o in PREFIXES["twomesh"]):
+            if any(o in _skips(name) for o in PREFIXES["twomesh"]):
                 continue
             for seq in itertools.product(sub, repeat=3):
                 out.append({"scn": name, "prefix": "twomesh", "ops": list(seq)})
@@ -546,9 +578,9 @@ def cases(tier, seed):
 def describe(tier, seed):
     depth = 2 if tier == "quick" else 3
     return {
-        "rule": f"E2 unmerged: {len(SCENARIOS)} simulation scenarios (elastic static / Newmark, thermal static / parabolic, beam static / Newmark, phase-field History / HistoryDamage, inelastic, hyperelastic, user weak forms static / parabolic / hyperbolic) x 6 prefixes (static iteration followed by a dynamic one / iteration 0 = initial state saved before any solve / iteration 0 kept in memory / written to disk / two stored iterations / two iterations on two meshes) x every sequence of the {len(OPS)} operations "
+        "rule": f"E2 unmerged: {len(SCENARIOS)} simulation scenarios (elastic static / Newmark, thermal static / parabolic, beam static / Newmark, phase-field History / HistoryDamage, inelastic, hyperelastic, user weak forms static / parabolic / hyperbolic) x {len(PREFIXES)} prefixes (static iteration followed by a dynamic one / two dynamic iterations followed by the return to the elliptic algorithm [letter ell, time-scheme scenarios only] / iteration 0 = initial state saved before any solve / iteration 0 kept in memory / written to disk / two stored iterations / two iterations on two meshes) x every sequence of the {len(OPS)} operations "
                 f"of length 1..{depth}; after every operation: every stored iteration still equals the snapshot taken when it was saved, reading a stored iteration "
-                "leaves the live state and the count unchanged, a restore brings back the fields, mesh and internal variables of the snapshot, "
+                "leaves the live state and the count unchanged - also when the reader overwrites, in place, the arrays of the dict it was handed (get0) -, a restore brings back the fields, mesh and internal variables of the snapshot, "
                 "Result(name, iter=0) equals the value recorded at save time, Load_Simu(Save()) has the same mesh, tags, count and stored iterations. "
                 "non-trivial = at least two stored iterations or one restore; distinct = fingerprint of all observations",
         "exhaustive": True,
@@ -556,6 +588,10 @@ def describe(tier, seed):
         "alphabet": {"ops": len(OPS), "scenarios": len(SCENARIOS), "prefixes": len(PREFIXES)},
         "assumptions": ["Result(name, iter=i) is documented to restore iteration i: treated as restore-then-query",
                         "velocity/acceleration are demanded only for scenarios whose time scheme uses them",
+                        "after the return to the elliptic algorithm (prefix back) a restored rate (v, a, speed, accel, thermalDot) must equal the saved one or be zero "
+                        "everywhere (the convention of Elastic / Thermal / Beam / HyperElastic); the rate of another iteration is a violation",
+                        "every array handed out by a getter, the arrays of the dict returned by Get_results(0) included, belongs to the caller: the harness overwrites it",
+                        "beam scenarios query an internal force (Mz), which needs the beam element groups",
                         "scratch folders under a per-case mkdtemp, removed afterwards",
                         "exact (bitwise) equality for stored entries, 1e-12 relative for restored fields and results"],
     }
@@ -641,6 +677,14 @@ def _run(case, scn, tmp):
         return out
 
     user_info = {}
+    elliptic = [False]  # the steady-state algorithm was selected after a transient history
+
+    def same_rate(name, got, ref, tol):
+        """got == ref; for a rate restored while the elliptic algorithm is selected: got == ref or got == 0 (see RATES)"""
+        if _eq(got, ref, tol):
+            return True
+        return bool(elliptic[0] and name.split(".")[-1] in RATES and got is not None and np.shape(got) == np.shape(ref) and not np.any(got))
+
     pending = [None]  # index of the iteration restored last, as long as nothing changed the state since
 
     def apply(op):
@@ -677,11 +721,14 @@ def _run(case, scn, tmp):
                     out.append(viol("resave_differs", f"after {done}: iteration {pending[0]} was restored and saved again without a solve, but the new stored "
                                                       f"iteration differs from it (keys {sorted(map(str, bad))[:4]})", field=str(sorted(map(str, bad))[:1]), **kk))
                 for name in src["named"]:
-                    if not _eq(new["named"].get(name), src["named"][name], 1e-10):
+                    if not same_rate(name, new["named"].get(name), src["named"][name], 1e-10):
                         out.append(viol("resave_differs", f"after {done}: result {name} of the re-saved iteration differs from the restored iteration {pending[0]}",
                                         field=name, **kk))
         elif op == "dyn":
             scn.to_dynamic(simu)
+        elif op == "ell":
+            simu.Solver_Set_Elliptic_Algorithm()
+            elliptic[0] = True
         elif op.startswith("folder"):
             simu.folder = {"folder0": "", "folderA": os.path.join(tmp, "A"), "folderB": os.path.join(tmp, "B")}[op]
         elif op in ("set0", "setlast"):
@@ -698,12 +745,12 @@ def _run(case, scn, tmp):
                 return out
             f = scn.fields(simu)
             for name in s["fields"]:
-                if not _eq(f.get(name), s["fields"][name], 1e-12):
+                if not same_rate(name, f.get(name), s["fields"][name], 1e-12):
                     out.append(viol("restore_field", f"after {done}: Set_Iter({i}): live field {name} differs from the one current when iteration {i} was saved",
                                     field=name.split(".")[-1], **kk))
             nm = scn.named(simu)
             for name in s["named"]:
-                if not _eq(nm.get(name), s["named"][name], 1e-10):
+                if not same_rate(name, nm.get(name), s["named"][name], 1e-10):
                     a, b = np.asarray(nm.get(name)), s["named"][name]
                     out.append(viol("restore_internal", f"after {done}: Set_Iter({i}): result {name} = {np.ravel(a)[:3]}... but {np.ravel(b)[:3]}... when iteration {i} was saved",
                                     result=name, **kk))
@@ -715,7 +762,12 @@ def _run(case, scn, tmp):
                 key = snaps[0]["mesh"]
         elif op == "get0":
             if snaps:
-                simu.Get_results(0)
+                _use(simu.Get_results(0))
+                again = simu.Get_results(0)
+                if not _eq(_strip(again), _strip(snaps[0]["stored"])):
+                    bad = sorted(str(k) for k in snaps[0]["stored"] if k in again and not _eq(again[k], snaps[0]["stored"][k]))
+                    out.append(viol("stored_aliased", f"after {done}: the arrays of the dict returned by Get_results(0) were overwritten by the reader and the stored "
+                                                      f"iteration 0 changed with them (keys {bad[:4]})", field=str(bad[:1]), **kk))
         elif op in ("res0", "reslast"):
             if not snaps:
                 return out
@@ -723,11 +775,12 @@ def _run(case, scn, tmp):
             s = snaps[it]
             for name in s["named"]:
                 try:
-                    r = np.atleast_1d(_take(simu.Result(name, nodeValues=(name in ("damage", "thermal", "thermalDot", "u", "v", "a", "displacement_norm", "Wdef", "Psi_Crack")), iter=it)))
+                    r = np.atleast_1d(_take(simu.Result(name, nodeValues=(name in NODE_RESULTS), iter=it)))
                 except Exception as err:
-                    out.append(viol("result_iter_raises", f"after {done}: Result({name!r}, iter={it}) raised {type(err).__name__}: {err}", result=name, **kk))
+                    out.append(viol("result_iter_raises", f"after {done}: Result({name!r}, iter={it}) raised {type(err).__name__}: {err}", result=name,
+                                    exc=type(err).__name__, saved_to_disk=("saveload" in done[:-1]), two_meshes=("replacemesh" in done), **kk))
                     continue
-                if not _eq(r, s["named"][name], 1e-10):
+                if not same_rate(name, r, s["named"][name], 1e-10):
                     out.append(viol("result_iter", f"after {done}: Result({name!r}, iter={it}) differs from the value obtained when that iteration was saved", result=name, **kk))
             nrestore += 1
             pending[0] = (len(snaps) - 1) if it == -1 else 0
